@@ -30,6 +30,16 @@ func c14View(e *venv) *venv {
 	return e2
 }
 
+func c14ShortIDs(js string) []string {
+	var out []string
+	for _, part := range strings.Split(js, "\"short_id\":\"")[1:] {
+		if i := strings.Index(part, "\""); i > 0 {
+			out = append(out, part[:i])
+		}
+	}
+	return out
+}
+
 func engineC14(c *vctx) error {
 	c.Header("Model.C14m", "C14m.case", "C14m.check_case")
 	c.Preamble("Import C14m.")
@@ -65,13 +75,13 @@ func engineC14(c *vctx) error {
 		{"dump", "-a", "tar", "latest", src},
 		{"find", "a.txt"},
 		{"find", "--tree", "0000"},
-		{"diff", "latest", "latest"},
+		{"diff", "FIRST", "LAST"},
 		{"stats"},
 		{"stats", "--mode", "raw-data"},
 		{"--no-lock", "check"},
 		{"--no-lock", "check", "--read-data"},
 		{"--no-lock", "ls", "latest"},
-		{"cat", "snapshot", "latest"},
+		{"cat", "snapshot", "LAST"},
 		{"rewrite", "--dry-run", "--exclude", "nothing-matches", "latest"},
 		{"repair", "snapshots", "--dry-run"},
 		{"tag", "--add", "t", "latest"},
@@ -84,8 +94,33 @@ func engineC14(c *vctx) error {
 			var first backend.FileType
 			seen, fired := false, false
 			var werr error
+			var tr []string
+			// snapshot ids for commands that do not understand "latest"
+			cmd = append([]string(nil), cmd...)
+			if so, _, serr := e.cli("snapshots", "--json"); serr == nil {
+				ids := c14ShortIDs(so)
+				for i := range cmd {
+					if cmd[i] == "FIRST" && len(ids) > 0 {
+						cmd[i] = ids[0]
+					}
+					if cmd[i] == "LAST" && len(ids) > 0 {
+						cmd[i] = ids[len(ids)-1]
+					}
+				}
+			}
 			e.rec.Reset()
 			e.rec.OnOp = func(o *vop) error {
+				// requests in the order they are issued
+				switch {
+				case o.Op == "List" && o.Type == backend.SnapshotFile:
+					tr = append(tr, "RListSnap")
+				case o.Op == "List" && o.Type == backend.IndexFile:
+					tr = append(tr, "RListIdx")
+				case o.Op == "Load" && o.Type == backend.SnapshotFile:
+					tr = append(tr, "RLoadSnap 0")
+				case o.Op == "Load" && o.Type == backend.IndexFile:
+					tr = append(tr, "RLoadIdx 0")
+				}
 				if o.Op == "List" && (o.Type == backend.SnapshotFile || o.Type == backend.IndexFile) {
 					if !seen {
 						seen, first = true, o.Type
@@ -101,19 +136,6 @@ func engineC14(c *vctx) error {
 			e.rec.OnOp = nil
 			if werr != nil {
 				return fmt.Errorf("C14: backup inside reader failed: %v", werr)
-			}
-			var tr []string
-			for _, o := range e.rec.Ops() {
-				switch {
-				case o.Op == "List" && o.Type == backend.SnapshotFile:
-					tr = append(tr, "RListSnap")
-				case o.Op == "List" && o.Type == backend.IndexFile:
-					tr = append(tr, "RListIdx")
-				case o.Op == "Load" && o.Type == backend.SnapshotFile:
-					tr = append(tr, "RLoadSnap 0")
-				case o.Op == "Load" && o.Type == backend.IndexFile:
-					tr = append(tr, "RLoadIdx 0")
-				}
 			}
 			if len(tr) > 60 {
 				tr = tr[:60]
